@@ -31,7 +31,9 @@ func vSnapshot() vSnap {
 	return m
 }
 
-func vGenFile(w *vWorld, rel, gen string) string { return w.root + "/" + rel + "/" + vBase + "." + gen + ".go" }
+func vGenFile(w *vWorld, rel, gen string) string {
+	return w.root + "/" + rel + "/" + vBase + "." + gen + ".go"
+}
 
 // vAct picks a symbolic action out of the given menu.
 func vAct(menu ...int) int { return menu[verifsym.IntRange(0, len(menu)-1)] }
